@@ -185,7 +185,7 @@ def cq_pid(p, i):
 def split_path(rel):
     """std::path::Path::components of a storage-root relative path, as the model's list of Normal
     components: empty and `.` components vanish; a path that is absolute or has a `..` component is no
-    relative descendant (fs.rs:1230-1240: never looked up, never created) = the model's empty path"""
+    relative descendant (fs.rs:1240-1250: never looked up, never created) = the model's empty path"""
     if rel.startswith("/"):
         return []
     parts = [c for c in rel.split("/") if c not in ("", ".")]
@@ -372,7 +372,8 @@ def scripted_case(rng, k, n):
 def occupied_case(rng, k, n):
     """flat layouts: ids whose layout path exists without being an object - the storage root's `extensions`
     directory and files, and (0002, ids with `/`) a directory other objects are stored beneath.  get_object
-    of such an id is NotFound (fs.rs:243-246), it is listed nowhere, and committing it is refused."""
+    or a directory inside another object (its version directory holds an inventory file).  get_object of such
+    an id is NotFound (fs.rs:239-247, 253-256), it is listed nowhere, and committing it is refused."""
     layout = ("0002", "0006")[n % 2]
     pre = "p:" if layout == "0006" else ""
     cfg = {"layout": layout, "repo_spec": ("1.1", "1.0")[(n // 2) % 2], "obj_spec": "1.0", "alg": "sha256", "cdir": "content",
@@ -438,7 +439,7 @@ class CaseRun:
         # What the driver knows of the handle's id->path cache (no layout; fs.rs:48-50).  A new handle
         # has an empty cache.  An entry is written when a scan finds the id (get_object, but also the
         # lookups inside new/cp/commit: after such a call the entry of THAT id is unknown unless already
-        # present) and is removed by purge (fs.rs:510-513).
+        # present) and is removed by purge (fs.rs:580-583).
         self.cache_sim = {}        # id -> root the handle's cache holds for certain
         self.cache_unknown = set() # ids whose entry may or may not exist
         self.pending_purge = []    # purge calls since the last checkpoint (compared with Listing.purge_object)
@@ -527,7 +528,7 @@ class CaseRun:
             ev["res"].append(hist.res_class(r))
             if "panic" in r:
                 ev["panic"] = r
-            # purge_object either evicts the entry (fs.rs:510-513) or found none (scan: NotFound);
+            # purge_object either evicts the entry (fs.rs:580-583) or found none (scan: NotFound);
             # an error of the staging store's purge (repo.rs:524-526) comes before the main store is asked
             if ok(r) or hist.res_class(r) == "err:IllegalState":
                 self.cache_sim.pop(tid, None)
@@ -544,7 +545,7 @@ class CaseRun:
                 return True
             if hist.res_class(r) == "err:IllegalState":
                 # the staged version is purged first (repo.rs:524-526); the refusal comes from the main
-                # store's guard on the object root (fs.rs:578)
+                # store's guard on the object root (fs.rs:588)
                 self.staged.discard(tid)
             return False
         return False
@@ -676,7 +677,7 @@ class Names:
 
 
 def checkpoint_term(case, cp):
-    """one Coq term per checkpoint: [esc; esc_s; names_unique t; q...] (a get contributes 2 bits)"""
+    """one Coq term per checkpoint: [esc; esc_s; names_unique t; q...] (one bit per query)"""
     nm = Names()
     lmap = case.get("lmap")
     lay = "None" if case["cfg"]["layout"] == "none" else \
@@ -703,7 +704,6 @@ def checkpoint_term(case, cp):
             o = q["obs"]
             ot = "(OFound %s %s)" % (cq_path(o[1]), nm.ref(o[2])) if o[0] == "found" else obs_term(o)
             bits.append("check_get lay %s t %s %s" % (cache, ident, ot))
-            bits.append("match lay with Some m => c19_layout_path_inside_object t (amap m %s) | None => false end" % ident)
     return "%slet t := %s in let s := %s in %slet lay := (%s : option (list (bytes * path))) in [%s]" % (
         nm.lets(), cp["tree"], cp["stree"], t0, lay, "; ".join(bits))
 
@@ -868,15 +868,13 @@ def judge_checkpoint(ctx, case, cp, bits, stats, known_ids):
             if bits is None:
                 report(q, [], True)
                 continue
-            model_ok, inside = bits[pos], bits[pos + 1]
-            pos += 2
+            model_ok = bits[pos]
+            pos += 1
             if not q["coq"]:
                 model_ok = True          # cache of the live handle unknown for this id: direct oracle only
                 stats["get_live_uncompared"] += 1
             slugs = []
             if q["msg"]:
-                if inside:
-                    slugs.append("layout-path-inside-object")
                 if nolayout and esc:
                     # includes the second lookup of the cut text through the same handle: the scan cached
                     # the wrong match (fs.rs:217-221), the cached path then fails the id comparison
@@ -1009,7 +1007,7 @@ def execute(ctx, cases, vh, with_crafted=True):
                                                  "observed": ev["panic"], "expected": "no panic"})
     for (run, cp), r in zip(owners, res):
         bits = parse_bits(r)
-        n_expected = 3 + sum(0 if q["kind"] == "validate_repo" else 1 if q["kind"] != "get" else 2 for q in cp["queries"])
+        n_expected = 3 + sum(0 if q["kind"] == "validate_repo" else 1 for q in cp["queries"])
         if len(bits) != n_expected:
             raise common.BuildError("unexpected Coq output for a C19 checkpoint: %s" % r[:300])
         stats["checkpoints"] += 1
@@ -1024,7 +1022,7 @@ def execute(ctx, cases, vh, with_crafted=True):
         for q, okb in zip(craft_qs, bits):
             ctx.count(("craft", q["kind"], q.get("glob"), q.get("id")), nontrivial=True)
             if not okb:
-                common.corr_break(ctx, "Corr.CheckListing crafted inventory (regex pre-filter / id parse vs fs.rs:39-40,851-880)",
+                common.corr_break(ctx, "Corr.CheckListing crafted inventory (regex pre-filter / id parse vs fs.rs:39-40, 1056-1085)",
                                   {"query": q, "crafted": CRAFT})
         stats["crafted_queries"] = len(craft_qs)
     ctx.coverage["traces_validated_against_impl"] = stats["checkpoints"]
